@@ -48,6 +48,7 @@ pub fn prop() -> Prop {
             Tier::Thorough => 800,
         },
         required_probes: &["cell_000", "cell_001", "cell_010", "cell_011", "cell_100", "cell_101", "cell_110", "cell_111", "root_absent", "root_empty", "root_32", "root_arbitrary", "keys_dkg", "plain_sign_checked", "cheaters_checked_R_odd", "cheaters_checked_R_even", "not_valid_under_untweaked"],
+        prepare: None,
     }
 }
 
